@@ -3,26 +3,29 @@ import TransportVerif.Proofs.Ctx
 namespace TV.Proofs.Ctx
 open TV TV.Ctx TV.CtxLink
 
-theorem inv_reach (want avail : Nat) (c : Bool) (ss : List Step) :
-    Inv (run (Op.new want avail c) ss) :=
-  inv_run _ _ (inv_new want avail c)
+theorem inv_reach (want avail : Nat) (c st : Bool) (ss : List Step) :
+    Inv (run (Op.new want avail c st) ss) :=
+  inv_run _ _ (inv_new want avail c st)
 
-theorem reach_bytes (want avail : Nat) (c : Bool) (ss : List Step) :
-    (run (Op.new want avail c) ss).avail + (run (Op.new want avail c) ss).transferred
+theorem reach_bytes (want avail : Nat) (c st : Bool) (ss : List Step) :
+    (run (Op.new want avail c st) ss).avail + (run (Op.new want avail c st) ss).transferred
       = avail + dataSum ss := by
-  have h := run_bytes (Op.new want avail c) ss
-  have h1 : (Op.new want avail c).avail = avail := rfl
-  have h2 : (Op.new want avail c).transferred = 0 := rfl
+  have h := run_bytes (Op.new want avail c st) ss
+  have h1 : (Op.new want avail c st).avail = avail := rfl
+  have h2 : (Op.new want avail c st).transferred = 0 := rfl
   omega
 
-theorem reach_want (want avail : Nat) (c : Bool) (ss : List Step) :
-    (run (Op.new want avail c) ss).want = want := run_want _ _
+theorem reach_want (want avail : Nat) (c st : Bool) (ss : List Step) :
+    (run (Op.new want avail c st) ss).want = want := run_want _ _
+
+theorem reach_stream (want avail : Nat) (c st : Bool) (ss : List Step) :
+    (run (Op.new want avail c st) ss).stream = st := run_stream _ _
 
 /-! ### facts about a state satisfying the invariant -/
 
 theorem inv_finished_clean (o : Op) (h : Inv o) (hf : o.main = .finished) :
     o.deadlineOld = false ∧ o.watcher = .exited := by
-  rcases o with ⟨m, w, c, d, dl, av, wt, n, ce, r, tr⟩
+  rcases o with ⟨m, w, c, d, dl, av, wt, n, ce, r, tr, st⟩
   simp only [Inv] at h hf ⊢
   grind
 
@@ -30,25 +33,34 @@ theorem inv_finished_iff (o : Op) (h : Inv o) : o.main = .finished ↔ o.result.
   h.2.2.2.2.2.2.2.2.1
 
 theorem inv_result (o : Op) (h : Inv o) (n : Nat) (e : Err) (hr : o.result = some (n, e)) :
-    n = o.transferred ∧ n ≤ o.want ∧ e ≠ .timeout ∧
+    n = o.transferred ∧ n ≤ o.want ∧
+      (e = .timeout → (o.cancelled = true ∧ o.stream = true ∧ 0 < n ∧ n < o.want)) ∧
       (e = .ctx → (o.cancelled = true ∧ n = 0)) ∧
-      (o.cancelled = false → 0 < o.want → e = .nil ∧ 0 < n) ∧
+      (o.cancelled = false → 0 < o.want → e = .nil ∧ 0 < n ∧ (o.stream = true → n = o.want)) ∧
       (0 < o.want → n = 0 → e = .ctx ∧ o.cancelled = true) := by
-  rcases o with ⟨m, w, c, d, dl, av, wt, n0, ce, r, tr⟩
+  rcases o with ⟨m, w, c, d, dl, av, wt, n0, ce, r, tr, st⟩
   simp only [Inv] at h hr ⊢
   subst hr
-  simp at h
-  grind
+  obtain ⟨-, h2, -, -, -, -, -, -, h9, -, ⟨h11, h11'⟩, -, -, h14, h15⟩ := h
+  have hm : m = .finished := h9.2 rfl
+  have hd : d = true := by
+    cases d
+    · rcases h2.1 rfl with h | h <;> simp [hm] at h
+    · rfl
+  obtain ⟨ht, -, hn⟩ := h14 hd
+  obtain ⟨rfl, hres⟩ := h15 n e rfl
+  subst h11
+  cases e <;> cases ce <;> cases c <;> cases st <;> simp at ht hn hres ⊢ <;> grind
 
 theorem inv_quiescent (o : Op) (h : Inv o) (hq : o.quiescent = true) :
     o.main = .finished ∨ (o.main = .inCall ∧ o.cancelled = false ∧ o.avail = 0) := by
-  rcases o with ⟨m, w, c, d, dl, av, wt, n, ce, r, tr⟩
+  rcases o with ⟨m, w, c, d, dl, av, wt, n, ce, r, tr, st⟩
   simp [Op.quiescent] at hq
   simp only [Inv] at h ⊢
   grind
 
-theorem inv_next_clean (o : Op) (h : Inv o) (hf : o.main = .finished) (want' : Nat) (c' : Bool) :
-    Op.next o want' c' = Op.new want' o.avail c' := by
+theorem inv_next_clean (o : Op) (h : Inv o) (hf : o.main = .finished) (want' : Nat) (c' st' : Bool) :
+    Op.next o want' c' st' = Op.new want' o.avail c' st' := by
   simp [Op.next, Op.new, (inv_finished_clean o h hf).1]
 
 /-- what a returned operation contributes to `reported` is what it transferred -/
@@ -76,22 +88,22 @@ theorem inv_live (o : Op) (h : Inv o) (hf : o.main = .finished) (hc : o.cancelle
   | some p =>
     obtain ⟨n, e⟩ := p
     have := (inv_result o h n e hr).2.2.2.2.1 hc hw
-    exact ⟨n, this.2, by rw [this.1]⟩
+    exact ⟨n, this.2.1, by rw [this.1]⟩
 
 /-! ### sessions -/
 
 theorem session_cons_cons (first : Op) (c c' : Call) (cs : List Call) :
     session first (c :: c' :: cs) =
-      run first c.sched :: session (Op.next (run first c.sched) c'.want c'.cancelled) (c' :: cs) := rfl
+      run first c.sched :: session (Op.next (run first c.sched) c'.want c'.cancelled c'.stream) (c' :: cs) := rfl
 
 theorem session_single (first : Op) (c : Call) : session first [c] = [run first c.sched] := rfl
 
 /-- every operation of a session whose operations have all returned is a reachable state of the
     single-operation model (because each one starts clean) -/
-theorem session_inv (want avail : Nat) (c : Bool) (cs : List Call)
-    (hfin : ∀ o ∈ session (Op.new want avail c) cs, o.main = .finished) :
-    ∀ o ∈ session (Op.new want avail c) cs, Inv o := by
-  induction cs generalizing want avail c with
+theorem session_inv (want avail : Nat) (c st : Bool) (cs : List Call)
+    (hfin : ∀ o ∈ session (Op.new want avail c st) cs, o.main = .finished) :
+    ∀ o ∈ session (Op.new want avail c st) cs, Inv o := by
+  induction cs generalizing want avail c st with
   | nil => intro o ho; simp [session] at ho
   | cons c1 cs ih =>
     cases cs with
@@ -100,28 +112,28 @@ theorem session_inv (want avail : Nat) (c : Bool) (cs : List Call)
       rw [session_single] at ho
       simp at ho
       subst ho
-      exact inv_reach _ _ _ _
+      exact inv_reach _ _ _ _ _
     | cons c2 cs =>
       rw [session_cons_cons] at hfin ⊢
-      have hI := inv_reach want avail c c1.sched
-      have hf : (run (Op.new want avail c) c1.sched).main = .finished :=
+      have hI := inv_reach want avail c st c1.sched
+      have hf : (run (Op.new want avail c st) c1.sched).main = .finished :=
         hfin _ (List.mem_cons_self ..)
       rw [inv_next_clean _ hI hf] at hfin ⊢
       intro o ho
       rcases List.mem_cons.1 ho with rfl | ho
       · exact hI
-      · exact ih _ _ _ (fun o ho => hfin o (List.mem_cons_of_mem _ ho)) o ho
+      · exact ih _ _ _ _ (fun o ho => hfin o (List.mem_cons_of_mem _ ho)) o ho
 
-theorem session_conserves_gen (want avail : Nat) (c : Bool) (cs : List Call) (hne : cs ≠ [])
-    (hfin : ∀ o ∈ session (Op.new want avail c) cs, o.main = .finished) :
-    reported (session (Op.new want avail c) cs) +
-        ((session (Op.new want avail c) cs).getLast?.map (·.avail)).getD avail
+theorem session_conserves_gen (want avail : Nat) (c st : Bool) (cs : List Call) (hne : cs ≠ [])
+    (hfin : ∀ o ∈ session (Op.new want avail c st) cs, o.main = .finished) :
+    reported (session (Op.new want avail c st) cs) +
+        ((session (Op.new want avail c st) cs).getLast?.map (·.avail)).getD avail
       = avail + offered cs := by
-  induction cs generalizing want avail c with
+  induction cs generalizing want avail c st with
   | nil => exact absurd rfl hne
   | cons c1 cs ih =>
-    have hI := inv_reach want avail c c1.sched
-    have hb := reach_bytes want avail c c1.sched
+    have hI := inv_reach want avail c st c1.sched
+    have hb := reach_bytes want avail c st c1.sched
     cases cs with
     | nil =>
       rw [session_single] at hfin ⊢
@@ -133,22 +145,22 @@ theorem session_conserves_gen (want avail : Nat) (c : Bool) (cs : List Call) (hn
       omega
     | cons c2 cs =>
       rw [session_cons_cons] at hfin ⊢
-      have hf : (run (Op.new want avail c) c1.sched).main = .finished :=
+      have hf : (run (Op.new want avail c st) c1.sched).main = .finished :=
         hfin _ (List.mem_cons_self ..)
       have hr := inv_reported _ hI hf
       rw [inv_next_clean _ hI hf] at hfin ⊢
-      have ih' := ih c2.want (run (Op.new want avail c) c1.sched).avail c2.cancelled
+      have ih' := ih c2.want (run (Op.new want avail c st) c1.sched).avail c2.cancelled c2.stream
         (by simp) (fun o ho => hfin o (List.mem_cons_of_mem _ ho))
       have hlast : ∀ (x : Op) (l : List Op), l ≠ [] → (x :: l).getLast? = l.getLast? := by
         intro x l hl
         cases l with
         | nil => exact absurd rfl hl
         | cons y l => exact List.getLast?_cons_cons
-      have hne' : session (Op.new c2.want (run (Op.new want avail c) c1.sched).avail c2.cancelled)
+      have hne' : session (Op.new c2.want (run (Op.new want avail c st) c1.sched).avail c2.cancelled c2.stream)
           (c2 :: cs) ≠ [] := by
         cases cs <;> simp [session]
       rw [hlast _ _ hne']
-      generalize session (Op.new c2.want (run (Op.new want avail c) c1.sched).avail c2.cancelled)
+      generalize session (Op.new c2.want (run (Op.new want avail c st) c1.sched).avail c2.cancelled c2.stream)
           (c2 :: cs) = l at ih' hne' ⊢
       have hlast' : ∃ y, l.getLast? = some y := by
         cases h : l.getLast? with
